@@ -7,5 +7,7 @@ def maxRotation : Nat := 1024
 def maxFldLength : Nat := 2048
 def maxMsgLength : Nat := 8192
 def defaultPrecision : Nat := 2
+def maxMsgTypeFieldLen : Nat := 32
+def headerCalcOffset : Nat := 32
 
 end Fix8Model.Gen
